@@ -274,6 +274,7 @@ class Scan:
         self.pass_closure_cells()
         self.pass_config_capture()
         self.pass_inherited_memo()
+        self.pass_class_object_containers()
         return sorted(self.rows.values(), key=lambda r: (r["file"], r["name"], r["kind"], r["site"]))
 
     # ------------------------------------------------------------------ data/control dependencies
@@ -948,6 +949,64 @@ class Scan:
                         a = v.attr
                     if a in written:
                         self.add(f.file, "cls." + a, f.qual, "inheritedMemo", "otherClass", True)
+
+    def pass_class_object_containers(self):
+        """a container reached through a class OBJECT (`cls._memo[k] = v`, `self.__class__._seen.append(x)`,
+        `getattr(cls, "_memo")[k] = v`) that is not one of the class's definition attributes: when the attribute is
+        declared on a typedpy base class the one object is shared by every subclass, so the key decides whether classes
+        can see each other's entries; a container created per class is still looked up through the MRO"""
+        def_attrs = self.definition_attrs()
+        for f in self.funcs:
+            if self.is_definition_time(f):
+                continue
+            aliases = {}
+            for n in f.body_nodes(strict=True):
+                if isinstance(n, ast.Assign) and len(n.targets) == 1 and isinstance(n.targets[0], ast.Name):
+                    a = self.attr_read(f, n.value)
+                    if a and a not in def_attrs:
+                        aliases[n.targets[0].id] = a
+
+            def target_attr(e):
+                if isinstance(e, ast.Name):
+                    return aliases.get(e.id)
+                a = self.attr_read(f, e)
+                return a if (a and a not in def_attrs) else None
+
+            for n in f.body_nodes(strict=True):
+                attr, key = None, "none"
+                if isinstance(n, (ast.Assign, ast.AugAssign)):
+                    for t in (n.targets if isinstance(n, ast.Assign) else [n.target]):
+                        if isinstance(t, ast.Subscript):
+                            a = target_attr(t.value)
+                            if a:
+                                attr, key = a, self.classify_key(f, t.slice)
+                elif isinstance(n, ast.Delete):
+                    for t in n.targets:
+                        if isinstance(t, ast.Subscript):
+                            a = target_attr(t.value)
+                            if a:
+                                attr, key = a, self.classify_key(f, t.slice)
+                elif isinstance(n, ast.Call) and isinstance(n.func, ast.Attribute) and n.func.attr in MUTATORS:
+                    a = target_attr(n.func.value)
+                    if a:
+                        attr = a
+                        if n.func.attr in ("setdefault", "pop", "__setitem__", "__delitem__") and n.args:
+                            key = self.classify_key(f, n.args[0])
+                if not attr:
+                    continue
+                owners = [c for c in self.classes if (c + "." + attr) in self.class_attrs
+                          and self.class_attrs[c + "." + attr][1]]
+                if owners:
+                    # declared (as a mutable object) on a typedpy class: ONE object for that class and all its subclasses
+                    name = owners[0] + "." + attr
+                    kind = self.class_attrs[name][1]
+                    file = self.class_attrs[name][0]
+                    if kind != "dict" and key != "className":
+                        key = "none"
+                    self.add(file, name, f.qual, kind, key, True)
+                else:
+                    # created per class somewhere else: still found through the MRO by subclasses
+                    self.add(f.file, "cls." + attr, f.qual, "dict", key if key != "none" else "unknown", True)
 
     def class_param_writes(self, g):
         """attributes that `g` writes onto a class it receives as a parameter"""
